@@ -151,6 +151,10 @@ class Codec:
         valid_idx = rawmsg.find(b"8=FIX.")
         if valid_idx == -1:
             assert silent, "no fix header"
+            # keep a frame start that is split by the read boundary ("8=FI" | "X.4.4")
+            for n in range(5, 0, -1):
+                if rawmsg.endswith(b"8=FIX."[:n]):
+                    return None, len(rawmsg) - n, None
             return None, len(rawmsg), None
 
         parsed_length = valid_idx
